@@ -38,6 +38,13 @@ REPLACEMENTS = (
     ("garbage", ["garbage", "1 = N 9 0", ""], True),
     ("brace look-alikes", ["1 = N 4 2", "}", "2 = N 1 0", RAW + "} ", "{", "[EasyKeyboard]", RAW + "{ ", "3 = N 2 0", RAW + "\t}", "9 = N 0 0"], True),
     ("header look-alikes", ["1 = N 4 2", RAW + "[ExpertSingle]", "2 = N 1 0", RAW + "[HardSingle]", RAW + "[EasyDrums]", RAW + "[Song]", RAW + "[ExpertDoubleBass]", "3 = N 2 0", RAW + "[x] y [z]"], True),
+    # ONE un-indented line that is exactly the header of another section (the last look-alike in a body decides where
+    # a renaming splitter files it)
+    ("header look-alike [ExpertSingle]", ["1 = N 4 2", RAW + "[ExpertSingle]", "2 = N 1 0"], True),
+    ("header look-alike [HardDrums]", ["1 = N 4 2", "2 = N 1 0", RAW + "[HardDrums]"], True),
+    ("header look-alike [EasyDrums]", [RAW + "[EasyDrums]", "1 = N 4 2"], True),
+    ("header look-alike [Song]", ["1 = N 4 2", RAW + "[Song]", "Resolution = 7"], True),
+    ("header look-alike [SyncTrack]", ["1 = N 4 2", RAW + "[SyncTrack]", "0 = TS 4", "0 = B 60000"], True),
     ("forced-first", ["0 = N 0 0", "0 = N 5 0"], False),
     ("unsorted", ["60 = E a", "10 = E b"], False),
 )
